@@ -64,6 +64,7 @@ class Pool:
             s.block(lambda: self.free_count() > 0, None, False, False)
         nt = s.new_task(p, lambda: fn(*args, **kw), "%s.g%d" % (p.name, len(p.tasks)), False)
         nt.greenlet = True
+        p.coop = True
         self.tasks.append(nt)
         return nt
 
@@ -90,6 +91,7 @@ class StreamServer:
         s, t, p = facade.ctx()
         self.task = s.new_task(p, self._accept_loop, "%s.acceptor" % p.name, False)
         self.task.greenlet = True
+        p.coop = True
 
     def _accept_loop(self):
         s, t, p = facade.ctx()
@@ -144,6 +146,7 @@ class FakeGevent:
         s, t, p = facade.ctx()
         nt = s.new_task(p, lambda: fn(*args, **kw), "%s.g%d" % (p.name, len(p.tasks)), False)
         nt.greenlet = True
+        p.coop = True
         return nt
 
     def __getattr__(self, name):
